@@ -553,3 +553,69 @@ Fixpoint closers (tr : list plabel) : list nat :=
 
 (* every Close closed the connection the reference was acquired for *)
 Definition closes_own (s : pst) : bool := forallb (fun e => Nat.eqb (fst e) (snd e)) (uclosed s).
+
+(* ==== perIPConn.Close in steps =====================================================================================
+   perIPConn.Close is   lock; cc := c.Conn; c.Conn = nil; unlock;  if cc == nil { return nil };  err := cc.Close();  Unregister(c.ip);  return err
+   Any number of callers can be inside Close of the same object at the same time (the worker after Connection: close, closeIdleConns,
+   hijackConnHandler, a handler or hijack user holding ctx.Conn()), the underlying cc.Close() can take arbitrarily long, and new
+   connections of the same address arrive meanwhile.  This third LTS has one step per part of Close: the locked section claims the
+   connection (only the caller that finds c.Conn != nil goes on), that caller's cc.Close() returns, that caller unregisters. *)
+Inductive wstage :=
+| WOpen          (* c.Conn != nil *)
+| WClaimed       (* a Close call has taken c.Conn (now nil) and is inside cc.Close() *)
+| WUnderClosed   (* cc.Close() returned; Unregister comes next *)
+| WDone.         (* unregistered *)
+
+Record xst := mkX {
+  xw : list (N * wstage);   (* per admitted connection: its address and the stage of its wrapper *)
+  xm : pmap;                (* perIPConnCounter.m *)
+  xunreg : list nat         (* ghost: the connections for which Unregister has run, latest first *)
+}.
+
+Definition xinit : xst := mkX [] (fun _ => None) [].
+
+Inductive xlabel :=
+| XArrive (ip : N)     (* wrapPerIPConn: Register; over the limit: Unregister + 429 + close, else a wrapper is made *)
+| XClose (c : nat)     (* some caller's Close reaches the locked section *)
+| XUnder (c : nat)     (* the claiming caller's cc.Close() returns *)
+| XUnreg (c : nat).    (* the claiming caller unregisters *)
+
+Definition xstep (lim : Z) (s : xst) (l : xlabel) : option xst :=
+  match l with
+  | XArrive ip =>
+      let (m', n) := register (xm s) ip in
+      if lim <? n then Some (mkX (xw s) (unregister m' ip) (xunreg s))
+      else Some (mkX (xw s ++ [(ip, WOpen)]) m' (xunreg s))
+  | XClose c =>
+      match nth_error (xw s) c with
+      | Some (ip, WOpen) => Some (mkX (upd (xw s) c (ip, WClaimed)) (xm s) (xunreg s))
+      | Some _ => Some s                      (* cc == nil: return nil *)
+      | None => None
+      end
+  | XUnder c =>
+      match nth_error (xw s) c with
+      | Some (ip, WClaimed) => Some (mkX (upd (xw s) c (ip, WUnderClosed)) (xm s) (xunreg s))
+      | _ => None
+      end
+  | XUnreg c =>
+      match nth_error (xw s) c with
+      | Some (ip, WUnderClosed) => Some (mkX (upd (xw s) c (ip, WDone)) (unregister (xm s) ip) (c :: xunreg s))
+      | _ => None
+      end
+  end.
+
+Fixpoint xrun (lim : Z) (s : xst) (tr : list xlabel) : option xst :=
+  match tr with
+  | [] => Some s
+  | l :: r => match xstep lim s l with Some s' => xrun lim s' r | None => None end
+  end.
+
+Inductive xreach (lim : Z) : xst -> Prop :=
+| xreach_init : xreach lim xinit
+| xreach_step s l s' : xreach lim s -> xstep lim s l = Some s' -> xreach lim s'.
+
+(* connections of an address that still hold their per-IP unit (not yet unregistered), and those that are still open *)
+Definition holds_ip (ip : N) (e : N * wstage) : Z :=
+  if N.eqb (fst e) ip then match snd e with WDone => 0 | _ => 1 end else 0.
+Definition open_ip (ip : N) (e : N * wstage) : Z :=
+  if N.eqb (fst e) ip then match snd e with WOpen => 1 | _ => 0 end else 0.
